@@ -131,6 +131,7 @@ def run(ctx):
                         direct.append(k.id)
         ctx.ob("V4.SELECTORS", name, not direct, "hands out dispatchers / scalar kernels only" if not direct else
                "returns the target_feature kernel %s directly, bypassing the runtime feature test" % direct[0], f.loc())
+    kernels_stay_in_index(ctx)
 
 
 def _from_tmp(f, local, tmp, depth=4):
@@ -217,3 +218,17 @@ def _const_switch_cuts(f):
             if tgt not in (true_t if v else false_t):
                 cuts.add((bb, tgt))
     return cuts
+
+
+def kernels_stay_in_index(ctx):
+    """V5 F32-KERNELS-WHO: the kernels of hnsw::distance accumulate in f32 — adequate for ranking ANN candidates, not for the exact
+    ORDER BY vec <-> q key, which the executor accumulates in f64 (an f32 sum overflows to +inf for large components and every such
+    row then compares equal).  They may be called from the hnsw module only."""
+    m = ctx.m
+    ext = sorted({(f.id, c.name.rsplit("::", 1)[-1]) for f in m.fns.values() if not f.id.startswith("hnsw::")
+                  for c in f.calls if c.name.startswith("hnsw::distance::")})
+    inside = sum(1 for f in m.fns.values() if f.id.startswith("hnsw::") and not f.id.startswith("hnsw::distance::")
+                 for c in f.calls if c.name.startswith("hnsw::distance::"))
+    ctx.ob("V5.F32-KERNELS-WHO", "hnsw::distance", not ext and inside > 0, "called only from the hnsw module (%d call site(s))" % inside if not ext else
+           "%s computes a value with the f32-accumulating kernel %s outside the index: an exact distance key narrowed through f32 overflows / "
+           "loses order for large components" % ext[0], "src/hnsw/distance.rs")
